@@ -55,6 +55,13 @@ def run(ck: Checker, prog: Program, tier: str):
     ck.guard(_sg, ck, prog)
     ck.guard(_registry, ck, prog)
     ck.guard(_purity, ck, prog)
+    # the operator is evaluated with the bandwidth and centre frequencies the caller configured: every processing function hands the
+    # configured (operator, bandwidth, frequencies, centre frequencies) to the registry entry (call wiring of C01)
+    from . import c01
+    with ck.borrow(c01, "C02.R5+"):
+        c01._PROG[0] = prog
+        for q in c01.ROW_BODIES:
+            ck.guard(c01._body, ck, prog, q)
     from .common import check_identity_comparisons as _cic
     ck.guard(_cic, ck, prog, "C02.R1", "C02")
 
